@@ -72,6 +72,11 @@ def _as_dtype(d, strict=True):
         return float64
     if d is object:
         return object_
+    k = getattr(d, '_vf_kind', None)      # the loader's int / float stand-ins used as dtype
+    if k == 'i':
+        return int64
+    if k == 'f':
+        return float64
     if strict:
         raise ShimGap('dtype %r' % (d,))
     return None
